@@ -209,19 +209,10 @@ def run_server(kconfig, sdkconfig, sdkconfig_rename, default_version=MAX_PROTOCO
                     before_ranges = {}
                     before_visible = {}
 
-                # if no new filename is supplied, use existing sdkconfig path, otherwise update the path
-                if req["load"] is None:
-                    req["load"] = sdkconfig
-                else:
-                    sdkconfig = req["load"]
-
-            if "save" in req:
-                if req["save"] is None:
-                    req["save"] = sdkconfig
-                else:
-                    sdkconfig = req["save"]
-
-            error = part_errors + handle_request(config, req)
+            # if no new filename is supplied, the existing sdkconfig path is used; a new filename becomes the path
+            # once the file has been loaded / written (not when the request is refused or the file cannot be used)
+            request_errors, sdkconfig = handle_request(config, req, sdkconfig)
+            error = part_errors + request_errors
 
             after = kconfgen.get_json_values(config)
             after_ranges = get_ranges(config)
@@ -294,24 +285,30 @@ def drop_invalid_parts(req: dict) -> List[str]:
     return error
 
 
-def handle_request(config, req):
+def handle_request(config, req, sdkconfig):
+    """
+    Carries out one request. Returns the list of errors and the sdkconfig path in use afterwards
+    ('load' / 'save' with null use the path in use).
+    """
     if "version" not in req:
-        return ["All requests must have a 'version'"]
+        return ["All requests must have a 'version'"], sdkconfig
 
     if req["version"] < MIN_PROTOCOL_VERSION or req["version"] > MAX_PROTOCOL_VERSION:
         return [
             f"Unsupported request version {req['version']}. "
             f"Server supports versions {MIN_PROTOCOL_VERSION}-{MAX_PROTOCOL_VERSION}"
-        ]
+        ], sdkconfig
 
     error = []
 
     if "load" in req:
-        log.print(f"Loading config from {escape(req['load'])}...", file=sys.stderr, markup=False)
+        load_path = sdkconfig if req["load"] is None else req["load"]
+        log.print(f"Loading config from {escape(load_path)}...", file=sys.stderr, markup=False)
         try:
-            config.load_config(req["load"])
+            config.load_config(load_path)
+            sdkconfig = load_path
         except Exception as e:
-            error += [f"Failed to load from {req['load']}: {e}"]
+            error += [f"Failed to load from {load_path}: {e}"]
 
     if "set" in req:
         handle_set(config, error, req["set"])
@@ -323,13 +320,15 @@ def handle_request(config, req):
             error += [f"Resetting config symbols is not supported in protocol version {req['version']}"]
 
     if "save" in req:
+        save_path = sdkconfig if req["save"] is None else req["save"]
         try:
-            log.print(f"Saving config to {escape(req['save'])}...", file=sys.stderr, markup=False)
-            kconfgen.write_config(config, req["save"])
+            log.print(f"Saving config to {escape(save_path)}...", file=sys.stderr, markup=False)
+            kconfgen.write_config(config, save_path)
+            sdkconfig = save_path
         except Exception as e:
-            error += [f"Failed to save to {req['save']}: {e}"]
+            error += [f"Failed to save to {save_path}: {e}"]
 
-    return error
+    return error, sdkconfig
 
 
 def handle_reset(config: kconfiglib.Kconfig, error: List[str], to_reset: List[str]) -> None:
